@@ -20,6 +20,13 @@ func (fc *funcCtx) run(b *ssa.BasicBlock, st *State) {
 			switch x := ins.(type) {
 			case *ssa.If:
 				c := fc.scalar(st, x.Cond)
+				if pol, ok := st.decided(c.T); ok {
+					if pol {
+						c.T = "true"
+					} else {
+						c.T = "false"
+					}
+				}
 				if c.T == "true" || c.T == "false" {
 					i := 0
 					if c.T == "false" {
@@ -62,6 +69,48 @@ func (fc *funcCtx) run(b *ssa.BasicBlock, st *State) {
 		}
 		b = nb
 	}
+}
+
+// decided: is the truth of atom c already fixed by the facts of this path (syntactically)?
+func (s *State) decided(c string) (bool, bool) {
+	if strings.HasPrefix(c, "(not ") && balanced(c[5:len(c)-1]) {
+		p, ok := s.decided(c[5 : len(c)-1])
+		return !p, ok
+	}
+	if p, ok := s.known[c]; ok {
+		return p, true
+	}
+	if strings.HasPrefix(c, "(and ") {
+		all := true
+		for _, x := range splitTop(c[5 : len(c)-1]) {
+			p, ok := s.decided(x)
+			if ok && !p {
+				return false, true
+			}
+			if !ok {
+				all = false
+			}
+		}
+		if all {
+			return true, true
+		}
+	}
+	if strings.HasPrefix(c, "(or ") {
+		allF := true
+		for _, x := range splitTop(c[4 : len(c)-1]) {
+			p, ok := s.decided(x)
+			if ok && p {
+				return true, true
+			}
+			if !ok {
+				allF = false
+			}
+		}
+		if allF {
+			return false, true
+		}
+	}
+	return false, false
 }
 
 func (fc *funcCtx) goTo(from, to *ssa.BasicBlock, st *State) {
@@ -138,12 +187,12 @@ func (fc *funcCtx) havoc(st *State, l *Loop) {
 	}
 	if l.AllHeaps || l.HasCall && false {
 		for k := range st.heaps {
-			st.heaps[k] = st.freshConst("heap", heapSort(k))
+			st.heaps[k] = st.freshConst("heap", heapSort(sortOfHeapKey(k)))
 		}
 	} else {
 		for k := range l.HeapSorts {
 			old := fc.heap(st, k)
-			nh := st.freshConst("heap", heapSort(k))
+			nh := st.freshConst("heap", heapSort(sortOfHeapKey(k)))
 			// frame: storage that the loop does not write through is unchanged. We keep
 			// the contents of every reference that is not the base of a written slice
 			// variable at loop entry and was allocated before the loop.
@@ -210,7 +259,7 @@ func (fc *funcCtx) havocValue(st *State, old Value, hint string) Value {
 		st.assume(app("<=", "0", ln))
 		st.assume(app("<=", ln, cp))
 		st.assume(app("<=", "0", ref))
-		return SliceV{ref, off, ln, cp, o.Elem}
+		return SliceV{Ref: ref, Off: off, Len: ln, Cap: cp, Elem: o.Elem}
 	case StructV:
 		n := StructV{T: o.T}
 		for i, f := range o.F {
@@ -229,14 +278,14 @@ func (fc *funcCtx) havocValue(st *State, old Value, hint string) Value {
 	return old
 }
 
-func (fc *funcCtx) heap(st *State, elemSort string) string {
-	if h, ok := st.heaps[elemSort]; ok {
+func (fc *funcCtx) heap(st *State, key string) string {
+	if h, ok := st.heaps[key]; ok {
 		return h
 	}
-	h := st.freshConst("heap0_"+elemSort, heapSort(elemSort))
-	st.heaps[elemSort] = h
+	h := st.freshConst("heap0_"+key, heapSort(sortOfHeapKey(key)))
+	st.heaps[key] = h
 	if st.oldHeaps != nil {
-		st.oldHeaps[elemSort] = h
+		st.oldHeaps[key] = h
 	}
 	return h
 }
@@ -341,11 +390,15 @@ func (e *Engine) note(s string) {
 
 func (fc *funcCtx) load(st *State, p PtrV, pos token.Pos) Value {
 	if p.Heap {
-		es, ok := scalarSort(p.Elem)
-		if !ok {
-			fc.abort("load of non-scalar slice element %s", p.Elem)
+		v := fc.heapLoad(st, p.Elem, p.Ref, p.Idx)
+		for _, f := range p.Path {
+			sv, ok := v.(StructV)
+			if !ok {
+				fc.abort("field path into non-struct slice element")
+			}
+			v = sv.F[f]
 		}
-		return Sc{app("select", app("select", fc.heap(st, es), p.Ref), p.Idx), es}
+		return v
 	}
 	if p.IsNil != "false" && p.IsNil != "" {
 		fc.oblige(st, "nil", fc.site(pos, "call"), not(p.IsNil), "pointer is not nil")
@@ -397,16 +450,11 @@ func setPath(v Value, path []int, nv Value) Value {
 
 func (fc *funcCtx) store(st *State, p PtrV, v Value, pos token.Pos) {
 	if p.Heap {
-		es, ok := scalarSort(p.Elem)
-		if !ok {
-			fc.abort("store of non-scalar slice element %s", p.Elem)
+		if len(p.Path) > 0 {
+			whole := fc.heapLoad(st, p.Elem, p.Ref, p.Idx)
+			v = setPath(whole, p.Path, v)
 		}
-		sc, ok := v.(Sc)
-		if !ok {
-			fc.abort("store of non-scalar into heap")
-		}
-		h := fc.heap(st, es)
-		st.heaps[es] = app("store", h, p.Ref, app("store", app("select", h, p.Ref), p.Idx, sc.T))
+		fc.heapStore(st, p.Elem, p.Ref, p.Idx, v)
 		if len(fc.con.Ensures) >= 0 && fc.frameChecked() {
 			fc.oblige(st, "frame", fc.site(pos, "index"), app(">=", p.Ref, st.entryBase), "writes only storage allocated by this call")
 		}
@@ -446,7 +494,12 @@ func (fc *funcCtx) exec(st *State, ins ssa.Instruction) (stop bool) {
 	case *ssa.DebugRef:
 	case *ssa.Alloc:
 		t := deref(x.Type())
-		st.cells[x] = fc.e.zero(st, t)
+		if at, ok := t.Underlying().(*types.Array); ok {
+			n := smtInt(at.Len())
+			st.cells[x] = fc.alloc(st, at.Elem(), n, n, true)
+		} else {
+			st.cells[x] = fc.e.zero(st, t)
+		}
 		if x.Comment != "" {
 			st.named[x.Comment] = x
 		}
@@ -507,7 +560,7 @@ func (fc *funcCtx) exec(st *State, ins ssa.Instruction) (stop bool) {
 		st.regs[x] = sv.F[x.Field]
 	case *ssa.FieldAddr:
 		p, ok := fc.val(st, x.X).(PtrV)
-		if !ok || p.Heap {
+		if !ok {
 			fc.abort("field address of unsupported pointer")
 		}
 		np := p
@@ -581,11 +634,14 @@ func (fc *funcCtx) alloc(st *State, et types.Type, ln, cp string, zero bool) Sli
 		ref = st.allocBase
 	}
 	st.allocOff++
-	if es, ok := scalarSort(et); ok && zero {
-		h := fc.heap(st, es)
-		st.heaps[es] = app("store", h, ref, fmt.Sprintf("((as const (Array Int %s)) %s)", es, zeroOfSort(es)))
+	if zero {
+		ls, _ := leavesOf(et)
+		for _, l := range ls {
+			h := fc.heap(st, l.key)
+			st.heaps[l.key] = app("store", h, ref, fmt.Sprintf("((as const (Array Int %s)) %s)", l.sort, zeroOfSort(l.sort)))
+		}
 	}
-	return SliceV{ref, "0", ln, cp, et}
+	return SliceV{Ref: ref, Off: "0", Len: ln, Cap: cp, Elem: et}
 }
 
 func (fc *funcCtx) unop(st *State, x *ssa.UnOp) {
@@ -794,6 +850,7 @@ func (fc *funcCtx) convert(st *State, x *ssa.Convert) Value {
 			st.assume(fmt.Sprintf("(forall ((r Int)) (! (=> (not (= r %s)) (= (select %s r) (select %s r))) :pattern ((select %s r))))", res.Ref, nh, h, nh))
 			st.assume(fmt.Sprintf("(forall ((i Int)) (! (=> (and (<= 0 i) (< i (str.len %s))) (= (select (select %s %s) i) (str.at %s i))) :pattern ((select (select %s %s) i))))", s.T, nh, res.Ref, s.T, nh, res.Ref))
 			st.heaps[SInt] = nh
+			res.Str = s.T
 			return res
 		}
 	}
@@ -824,6 +881,14 @@ func (fc *funcCtx) indexAddr(st *State, x *ssa.IndexAddr) {
 	case SliceV:
 		fc.oblige(st, "bounds", fc.site(x.Pos(), "index"), and(app("<=", "0", idx.T), app("<", idx.T, b.Len)), "index in range")
 		st.regs[x] = PtrV{Heap: true, Ref: b.Ref, Idx: plus(b.Off, idx.T), Elem: b.Elem}
+	case PtrV:
+		// pointer to an array-typed local: the array lives in a heap row
+		if av, ok := st.cells[b.Cell].(SliceV); ok && !b.Heap && len(b.Path) == 0 {
+			fc.oblige(st, "bounds", fc.site(x.Pos(), "index"), and(app("<=", "0", idx.T), app("<", idx.T, av.Len)), "index in range")
+			st.regs[x] = PtrV{Heap: true, Ref: av.Ref, Idx: plus(av.Off, idx.T), Elem: av.Elem}
+			return
+		}
+		fc.abort("index address through unsupported pointer")
 	default:
 		fc.abort("index address of %T not supported", base)
 	}
@@ -906,7 +971,31 @@ func (fc *funcCtx) slice(st *State, x *ssa.Slice) {
 			hi = fc.scalar(st, x.High).T
 		}
 		fc.oblige(st, "bounds", fc.site(x.Pos(), "slice"), and(app("<=", "0", lo), app("<=", lo, hi), app("<=", hi, b.Cap)), "slice bounds in range")
-		st.regs[x] = SliceV{b.Ref, plus(b.Off, lo), app("-", hi, lo), app("-", b.Cap, lo), b.Elem}
+		st.regs[x] = SliceV{Ref: b.Ref, Off: plus(b.Off, lo), Len: minus(hi, lo), Cap: minus(b.Cap, lo), Elem: b.Elem}
+	case PtrV:
+		if sv, ok := st.cells[b.Cell].(Sc); ok && sv.S == SStr && !b.Heap && x.Low == nil && x.High == nil {
+			// byte array whose content is known as a string (e.g. a digest): view it as bytes
+			res := fc.alloc(st, types.Typ[types.Uint8], app("str.len", sv.T), app("str.len", sv.T), false)
+			res.Str = sv.T
+			st.regs[x] = res
+			return
+		}
+		av, ok := st.cells[b.Cell].(SliceV)
+		if !ok || b.Heap || len(b.Path) != 0 {
+			fc.abort("slice of unsupported pointer")
+		}
+		lo := "0"
+		hi := av.Len
+		if x.Low != nil {
+			lo = fc.scalar(st, x.Low).T
+		}
+		if x.High != nil {
+			hi = fc.scalar(st, x.High).T
+		}
+		if lo != "0" || hi != av.Len {
+			fc.oblige(st, "bounds", fc.site(x.Pos(), "slice"), and(app("<=", "0", lo), app("<=", lo, hi), app("<=", hi, av.Cap)), "slice bounds in range")
+		}
+		st.regs[x] = SliceV{Ref: av.Ref, Off: plus(av.Off, lo), Len: minus(hi, lo), Cap: minus(av.Cap, lo), Elem: av.Elem}
 	default:
 		fc.abort("slice of %T not supported", base)
 	}
